@@ -244,12 +244,14 @@ Definition pd_grouped_transform (rkeys : list (list val)) (vals : list val) (fn 
 Definition pd_grouped_cumcount (rkeys : list (list val)) : list val :=
   grouped_apply (number_from 0) rkeys (map (fun _ => VNull) rkeys).
 
-(* pd.DataFrame({k: gseries_k}) for series sharing one group index, followed by reset_index(drop=False): the key columns (named
-   after the groupby keys) in front, then one column per series.  ValueError when a key name is also a series name. *)
-Definition pd_frame_of_gseries (key_names : list string) (gkeys : list (list val)) (kvs : list (string * list val)) : option table :=
-  if forallb (fun kv => Nat.eqb (List.length (snd kv)) (List.length gkeys)) kvs
+(* frame.reset_index(drop=False) on a frame whose index is a list of group keys: the key columns (named after the groupby keys)
+   are inserted in front.  ValueError when a key name is already a column. *)
+Definition pd_reset_index_insert (key_names : list string) (gkeys : list (list val)) (t : table) : option table :=
+  if Nat.eqb (List.length gkeys) (nrows t)
      && forallb (fun k => Nat.eqb (List.length k) (List.length key_names)) gkeys
-     && nodup_names (key_names ++ map fst kvs)
-  then Some (mktable (key_names ++ map fst kvs)
-                     (map (fun kr => fst kr ++ snd kr) (combine gkeys (transpose_cols (List.length gkeys) (map snd kvs)))))
+     && nodup_names (key_names ++ cols t)
+  then Some (mktable (key_names ++ cols t) (map (fun kr => fst kr ++ snd kr) (combine gkeys (rows t))))
   else None.
+(* pd.DataFrame({k: gseries_k}) for series sharing one group index, followed by reset_index(drop=False) *)
+Definition pd_frame_of_gseries (key_names : list string) (gkeys : list (list val)) (kvs : list (string * list val)) : option table :=
+  t <- pd_frame_of_columns (List.length gkeys) kvs ;; pd_reset_index_insert key_names gkeys t.
